@@ -52,6 +52,19 @@ theorem C05_rewrite_source_name_witness :
       = .ok [⟨[47, 120, 47, 102, 111, 111, 47, 98, 97, 114, 46, 99], [98, 97, 114, 46, 99], {}⟩] := by
   decide
 
+/-- Witness 3 (found by the rewrite-twice stream, finding C05-prefix-behind-dotdot-restripped): an
+ABSOLUTE `--prefix-dir /p` and the key `/x/../p/a.c`. `remove_prefix` compares components before
+any ".." is resolved, so the first run does not strip; the path is normalised to `/p/a.c` and
+reported absolute; re-imported, `/p/a.c` IS below the prefix and is reported as `a.c`. (Compilers
+record such paths: `/ws/obj/../src/a.c`.) The guard it violates is "the reported file exists below
+the source dir" — there the path is canonicalised and made relative to the source dir. -/
+theorem C05_rewrite_prefix_dotdot_witness :
+    rewritePaths { prefixDir := some [47, 112] } ⟨[], [], []⟩
+        [([47, 120, 47, 46, 46, 47, 112, 47, 97, 46, 99], {})]
+      = .ok [⟨[47, 112, 47, 97, 46, 99], [47, 112, 47, 97, 46, 99], {}⟩] ∧
+    rewritePaths { prefixDir := some [47, 112] } ⟨[], [], []⟩ [([47, 112, 47, 97, 46, 99], {})]
+      = .ok [⟨[97, 46, 99], [97, 46, 99], {}⟩] := by decide
+
 theorem C05_rewrite_idempotent_false : ¬ C05_rewrite_idempotent_stmt := by
   intro h
   obtain ⟨rep', e1, e2⟩ := h _ _ _ _ rfl C05_rewrite_relative_prefix_witness.1
@@ -144,21 +157,20 @@ theorem C05_rewrite_idempotent_plain_partial (cfg : Cfg) (fs : FS) (m : List (By
     rw [selectRec_some_iff]
     subst e
     exact ⟨h1, h2, by simp [hE], h4, rfl⟩
-  let g : Rec → Rec := fun r =>
-    if hr : ∃ a, rewriteKey cfg fs (r.rel, r.cov) = .ok (some ⟨a, r.rel, r.cov⟩)
-    then ⟨hr.choose, r.rel, r.cov⟩ else r
-  have hg : ∀ r ∈ rep, rewriteKey cfg fs (r.rel, r.cov) = .ok (some (g r)) := by
+  let g : Rec → Rec := fun r => (okPart (rewriteKey cfg fs (r.rel, r.cov))).getD r
+  have hg : ∀ r ∈ rep, ∃ a, rewriteKey cfg fs (r.rel, r.cov) = .ok (some (g r)) ∧
+      g r = ⟨a, r.rel, r.cov⟩ := by
     intro r hr
-    have hx := hkey r hr
-    simp only [g, hx, dif_pos]
-    exact hx.choose_spec
-  refine ⟨rep.map g, rewritePaths_reKeys cfg fs rep g habs hg, ?_⟩
+    obtain ⟨a, ha⟩ := hkey r hr
+    have : g r = ⟨a, r.rel, r.cov⟩ := by simp [g, ha, okPart]
+    exact ⟨a, by rw [this]; exact ha, this⟩
+  refine ⟨rep.map g, rewritePaths_reKeys cfg fs rep g habs (fun r hr => (hg r hr).choose_spec.1), ?_⟩
   unfold reKeys
   rw [List.map_map]
   apply List.map_congr_left
   intro r hr
-  have hx := hkey r hr
-  simp [g, hx]
+  obtain ⟨a, _, e⟩ := hg r hr
+  simp [e]
 
 /-- Iterating: under the guards of `C05_rewrite_idempotent_partial` every further re-import
 reproduces the report (`rewriteTwice` is one export/import round at the rewrite level). -/
